@@ -193,6 +193,8 @@ const c10Yang = `module c10 { namespace "urn:c10"; prefix c; revision 2020-01-01
  leaf u { type union { type int8; type boolean; type string; } }
  leaf u2 { type union { type uint16; type int32; } }
  leaf-list ul { type union { type int8; type string; } }
+ leaf ep { type enumeration { enum pa { value 0; } enum pb { value 2; } enum pc { value 1; } enum pd { value 3; } } }
+ leaf-list epl { type enumeration { enum pa { value 0; } enum pb { value 2; } enum pc { value 1; } enum pd { value 3; } } }
  leaf lr { type leafref { path "../n16"; } }
  leaf n16 { type int16; }
  leaf-list lrl { type leafref { path "../n16"; } }
@@ -200,6 +202,9 @@ const c10Yang = `module c10 { namespace "urn:c10"; prefix c; revision 2020-01-01
 
 // enum a=0? RFC: first enum without value gets 0, b=5, c=6, z=0 would collide; keep z out of the oracle when the library rejects.
 var c10Enums = map[string]int{"a": 0, "b": 5, "c": 6}
+
+// values that do not ascend with the declaration order, first 0 and last n-1
+var c10EnumsPermuted = map[string]int{"pa": 0, "pb": 2, "pc": 1, "pd": 3}
 
 type c10TypedCase struct {
 	Leaf string  `json:"leaf"`
@@ -228,6 +233,14 @@ func genTypedSrc(t *rapid.T, leaf string) srcList {
 				rapid.Map(rapid.SampledFrom([]string{"0", "5", "6", "1", "4294967301"}), func(s string) srcVal { return srcVal{"int64", s} }),
 				rapid.Map(rapid.SampledFrom([]string{"0", "5", "6", "05", " 5", "5.0"}), func(s string) srcVal { return srcVal{"string", s} }),
 			).Draw(t, label)
+		case "ep":
+			return rapid.OneOf(
+				rapid.Map(rapid.SampledFrom([]string{"pa", "pb", "pc", "pd", "pe", ""}), func(s string) srcVal { return srcVal{"string", s} }),
+				rapid.Map(rapid.SampledFrom([]string{"0", "1", "2", "3", "4", "-1"}), func(s string) srcVal { return srcVal{"int", s} }),
+				rapid.Map(rapid.SampledFrom([]string{"0", "1", "2", "3"}), func(s string) srcVal { return srcVal{"int64", s} }),
+				rapid.Map(rapid.SampledFrom([]string{"0", "1", "2", "3", "1.5"}), func(s string) srcVal { return srcVal{"float64", s} }),
+				rapid.Map(rapid.SampledFrom([]string{"0", "1", "2", "3"}), func(s string) srcVal { return srcVal{"string", s} }),
+			).Draw(t, label)
 		case "b":
 			return rapid.OneOf(
 				rapid.Map(rapid.SampledFrom([]string{"x", "y", "z", "x y", "x z y", "x bogus", "bogus", "", "x  y", "X", "y y"}), func(s string) srcVal { return srcVal{"string", s} }),
@@ -244,7 +257,7 @@ func genTypedSrc(t *rapid.T, leaf string) srcList {
 		return genSrc(t, label)
 	}
 	var l srcList
-	if strings.HasSuffix(leaf, "l") && leaf != "el" || leaf == "el" {
+	if strings.HasSuffix(leaf, "l") && leaf != "el" || leaf == "el" || leaf == "epl" {
 		l.Kind = rapid.SampledFrom([]string{"[]interface{}", "[]T", "single"}).Draw(t, "lkind")
 		n := rapid.IntRange(1, 3).Draw(t, "n")
 		if l.Kind == "single" {
@@ -264,13 +277,17 @@ func genTypedSrc(t *rapid.T, leaf string) srcList {
 	return l
 }
 
-var c10TypedLeaves = []string{"e", "el", "b", "bl", "i", "il", "u", "u2", "ul", "lr", "lrl"}
+var c10TypedLeaves = []string{"e", "el", "ep", "epl", "b", "bl", "i", "il", "u", "u2", "ul", "lr", "lrl"}
 
 // judge one element of a schema-typed conversion
 func c10JudgeTyped(leaf string, src srcVal, got val.Value) (string, string) {
 	base := strings.TrimSuffix(leaf, "l")
 	switch base {
-	case "e":
+	case "e", "ep":
+		c10Enums := c10Enums
+		if base == "ep" {
+			c10Enums = c10EnumsPermuted
+		}
 		e, ok := got.(val.Enum)
 		if !ok {
 			return "wrong-format", fmt.Sprintf("%T", got)
